@@ -14,7 +14,7 @@ CHECKS = {
         'every node, every argument form and both flags: the factory succeeds and get_parents/children/ancestors/descendants return, each node exactly once, '
         'exactly the is_a objects/subjects resp. the nodes reachable over >= 1 is_a edges up/down (clos_trans), and include_source adds the source exactly once '
         'and nothing else. The stack DFS and deque BFS are instances of one worklist theorem proved for any pop policy. Correspondence: all 542 acyclic edge sets '
-        'on 4 positions x 2 label pools + random shape families (30% with edges listed again anywhere in the list), dense graphs with > 255 edges, 3 real factories, every node/query/flag; plus a scale probe (~70 000 edges) compared directly with the closure.',
+        'on 4 positions x 2 label pools + random shape families (30% with edges listed again anywhere in the list), dense graphs with > 255 edges, 3 real factories, every node/query/flag as TermId and once more in another argument form (CURIE with ':' or '_', identified object, user-defined TermId subclass); plus a scale probe (~70 000 edges) compared directly with the closure.',
         'Trusted: Coq kernel + vm_compute; numpy arrays, dict/bisect lookup, deque/list buffers, generator laziness modelled functionally; TermId nodes '
         'represented by (prefix,id) keys (C04). Hypothesis: owl:Thing is not itself an input term. The model contains the de-duplication of repeated edges '
         'introduced by the fix: commit 8229d06.',
@@ -26,7 +26,7 @@ CHECKS = {
         'other node reaches the root; ANY two edge lists with the same edge set (all permutations and all multisets of repeats at once) give equal node '
         'lists, equal roots and equal answers to every query/predicate/leaf/membership call (queries as multisets), across factories; inputs without a '
         'parentless term are rejected with ValueError. Correspondence: every C01 graph rebuilt from shuffled / reversed / repeated-edge / grouped-by-object '
-        'variants, 1..4 roots, all three real factories.',
+        'variants, 1..4 roots, a dense graph (> 255 edges on 24 nodes, every node queried), all three real factories.',
         'Trusted: as C01; Python set iteration order of root candidates is modelled by a sorted list (proved irrelevant). Repeated edges: genuine defect '
         'fixed in /repo (fix: 8229d06).',
         '§4 C02'),
@@ -36,7 +36,7 @@ CHECKS = {
         'identically; is_*_of(sub,obj) is true exactly when the traversal of obj contains sub, is_leaf exactly when there are no children, so parent/child and '
         'ancestor/descendant are converse; node_to_idx/idx_to_node are inverse bijections between nodes and 0..n-1, root_idx maps to the root; every *_idx '
         'query/predicate equals the node API through that bijection; str / TermId / Identified arguments give identical results. Correspondence: all ordered '
-        'pairs of nodes x 5 predicates x 3 factories x 5 argument forms (CURIE, TermId, a user-defined TermId subclass, identified objects carrying either) and the full index API on every small graph.',
+        'pairs of nodes x 5 predicates x 3 factories x 5 argument forms (CURIE, TermId, a user-defined TermId subclass, identified objects carrying either) and the full index API on every small graph; a dense graph (> 255 edges on 24 nodes).',
         'Trusted: as C01. __contains__ is exercised with TermId operands (its declared signature); the index API exists on the indexed graph only.',
         '§4 C03'),
     'C14': (
@@ -45,7 +45,7 @@ CHECKS = {
         'is_*_of as object, gives False as subject, membership False, node_to_idx None; non-CURIE strings and non-node objects raise ValueError in every '
         'method; EVERY integer outside 0..n-1 (negative included, unbounded Z) raises ValueError in get_*_idx and idx_to_node; for is_*_of_idx an out-of-range '
         'walked index raises ValueError and an out-of-range other index never yields True. Correspondence: absent ids before/between/after/foreign prefix, '
-        'look-alikes of present ids (other zero padding, sign, blanks, digit separators, full-width digits, other prefix case), malformed values, integers {-n-2..-1, n..n+2, 10^6, 2^63} and numpy ints on every method of both graph classes.',
+        'look-alikes of present ids (other zero padding, sign, blanks, digit separators, full-width digits, other prefix case), every query also asked for its first item only, malformed values, integers {-n-2..-1, n..n+2, 10^6, 2^63} and numpy ints on every method of both graph classes.',
         'Trusted: as C01; numpy integer indexing modelled by explicit range checks. Off-by-one row check and negative idx_to_node: genuine defect fixed in '
         '/repo (fix: 929e410). Reading of the two-index predicates fixed in DESIGN §4 C14.',
         '§4 C14'),
@@ -88,7 +88,7 @@ CHECKS = {
         '(unconditional); with a disjoint id assignment a lookup of a primary or alternate id in any of the three argument forms returns exactly that current '
         'term and any other id None; `in` is true iff the lookup succeeds; term_ids lists exactly the primary and alternate ids of current terms, each once, '
         'and exactly these resolve; other argument kinds raise ValueError. Correspondence: random collections incl. obsolete terms with alternate ids, ids '
-        'shared between obsolete and current terms, clashing ids, look-alikes of known ids as absent ids, both ontology kinds, all query forms (incl. a user-defined TermId subclass), identity of the returned object.',
+        'shared between obsolete and current terms, clashing ids, look-alikes of known ids as absent ids, both ontology kinds, all query forms (incl. a user-defined TermId subclass), identity of the returned object; the sequence the ontology was created from is edited by the caller afterwards.',
         'Trusted: Coq kernel + vm_compute; dict modelled as association list with in-place overwrite; object identity rendered as list position.',
         '§4 C06'),
     'C07': (
@@ -116,7 +116,7 @@ CHECKS = {
         '1..100000 each of the six HPO frequency terms gives round(frequency*cohort) in 0..cohort and inside the term\'s range scaled to the cohort (up to '
         'rounding), and for cohort 1..2000 each percentage 0, 0.5, .., 100 lands within 1/2 of p*cohort/100. PARTIAL: larger cohorts and other percentages '
         'are not proved. Correspondence: generated files (both header styles, all frequency forms, NOT/salvage, P/I/C/M, shuffled copies) compared with the '
-        'model incl. the Python type of the modes of inheritance; HPO_FREQUENCIES compared bit for bit.',
+        'model incl. the Python type of the modes of inheritance; HPO_FREQUENCIES compared bit for bit; two cases out of three go through a loader instance that has loaded other files before.',
         'Trusted: Coq kernel + vm_compute + primitive floats (PrimFloat/Uint63; no float axioms); Python round modelled as round-half-even; tab/; splitting '
         'exercised only through rendered files. Two genuine defects fixed in /repo (fix: bfb4b0c frequency precedence, fix: ef03442 modes of inheritance as str).',
         '§4 C08'),
@@ -150,7 +150,7 @@ CHECKS = {
         'and nothing else; the phenotypic-abnormality validator warns exactly for items whose current id is not a strict descendant of HP:0000118; the '
         'obsolete-id validator warns exactly for items whose id differs from its current id, which for disjoint ids means: uses an alternate id; the runner '
         'returns the concatenation and is_ok iff empty. Non-mutation of the caller\'s items is checked on the implementation (aliasing fact, not a theorem). '
-        'Correspondence: exhaustive item sequences on a fixed ontology + random multi-parent ontologies, all item forms, all validator combinations.',
+        'Correspondence: exhaustive item sequences on a fixed ontology + random multi-parent ontologies, all item forms, all validator combinations, the runner built from a list / tuple / generator / map object by turns.',
         'Trusted: as C01 and C06; message wording parsed by the harness (CURIEs in brackets, state word).',
         '§4 C11'),
     'C12': (
@@ -161,7 +161,7 @@ CHECKS = {
         'exactly what it yields alone, and one opened later is unaffected by what happened before; the parent / child iterators are the successor-free instance (drained = the row; each yields a prefix of its own row in any history). In the model isolation is structural, so the verdict rests '
         'on the property\'s own observable on the real code: results after query histories (incl. abandoned half-consumed iterators) equal fresh results; all '
         'interleavings (<= 60 per configuration, thorough <= 1680) of 2-3 open iterators yield the solo sequences, and their yields match the model in Coq '
-        '(no repeats, right multiset); 8 reader threads; documents / HPOA files A,B,A through the shared default factories; every ontology-level query (lookups of primary / alternate / obsolete / absent ids in three argument forms, membership, names, len, listings, version) on three fresh loads in fixed, reverse and shuffled order with open listing iterators; half-consumed traversals resumed after another query. PARTIAL: preemption inside a '
+        '(no repeats, right multiset); 8 reader threads; documents / HPOA files A,B,A through the shared default factories; every ontology-level query (lookups of primary / alternate / obsolete / absent ids in three argument forms, membership, names, len, listings, version) on three fresh loads in fixed, reverse and shuffled order with open listing iterators; half-consumed traversals resumed after another query; one prefix-set object used for several loads and edited by the caller in between. PARTIAL: preemption inside a '
         'generator step and true parallelism are explored, not proved.',
         'Trusted: Coq kernel + vm_compute; generator semantics modelled as explicit states; footprint digest is diagnostic only.',
         '§4 C12'),
@@ -171,7 +171,7 @@ CHECKS = {
         'id sequence, repeats allowed: the clustering loop ends with one tree whose tagged leaves in order are a rearrangement of the input ids; '
         '_find_indices then returns each position 0..n-1 exactly once and indexing the input with the result yields exactly that order; a single item '
         'gives (0,); the empty sequence raises. Ids enter only through equality, so TermIds and identified objects agree, and the model is a function, so '
-        'repeated calls agree. Correspondence: edge-distance, IC (injective/zero/tied/negative) and a scripted arbitrary measure on random DAGs, on fresh and on used graphs, with follow-up calls on the same sorter '
+        'repeated calls agree. Correspondence: edge-distance, IC (injective/zero/tied/negative) and a scripted arbitrary measure on random DAGs, on fresh and on used graphs, the ids also as a numpy object array and as a deque, with follow-up calls on the same sorter '
         '(fresh lists and one list edited in place); the values returned by the measure are recorded call by call (as ranks) and run through the model\'s own argmax / epsilon logic - the index '
         'tuple must be identical; a different but valid order is reported as a broken correspondence (no-failing-input-found), the property predicate (permutation etc.) is evaluated on every output.',
         'Trusted: Coq kernel + vm_compute; the similarity measures are not modelled (quantified over); the measure is wrapped from the harness to '
